@@ -212,6 +212,7 @@ def r2_indices(prog, res):
 
 def r3_max(prog, res):
     n = 0
+    const_writes = []
     for f in prog.all_functions():
         sites = []
         for x in f.walk_all():
@@ -227,6 +228,10 @@ def r3_max(prog, res):
         for (x, rhs, op) in sites:
             n += 1
             kind = None
+            if rhs is not None and isinstance(rhs.get("val"), int):
+                const_writes.append(rhs["val"])
+            elif rhs is not None and rhs["k"] == "Unary" and rhs.get("op") == "-" and isinstance((strip(rhs["ch"][0]) or {}).get("val"), int):
+                const_writes.append(-strip(rhs["ch"][0])["val"])
             if rhs is not None and rhs.get("val") == -1 or (rhs is not None and rhs["k"] == "Unary" and rhs.get("op") == "-" and strip(rhs["ch"][0]).get("val") == 1):
                 kind = "reset to -1 (empty manager)"
                 ok = True
@@ -235,6 +240,13 @@ def r3_max(prog, res):
                 ok = True
             elif op in ("post++", "pre++"):
                 kind = "increment"
+                ok = True
+            elif rhs is not None and rhs["k"] == "Int" and "val" in rhs and any(
+                    a["k"] == "If" and any(y is x for y in walk(a["ch"][1])) and strip(a["ch"][0]) is not None and
+                    strip(a["ch"][0])["k"] == "Binary" and strip(a["ch"][0]).get("op") == "<" and
+                    norm(strip(a["ch"][0])["ch"][0]) == "maxFileId" and "val" in (strip(strip(a["ch"][0])["ch"][1]) or {}) and
+                    strip(strip(a["ch"][0])["ch"][1])["val"] - 1 <= rhs["val"] for a in f.ancestors(x)):
+                kind = "raised to the constant %s under a guard that it is not above that" % rhs["val"]
                 ok = True
             else:
                 # an instance id, under a guard that it is larger than the current maximum
@@ -261,7 +273,36 @@ def r3_max(prog, res):
         ok = len(rets) == 1 and norm(rets[0]["ch"][0]) in ("maxFileId=maxFileId+1", "++maxFileId")
         res.add("R3.next_is_fresh", "R3|include/clstepcore/instmgr.h|InstMgr::NextFileId|max+1", f.where(), ok,
                 "NextFileId() raises the high-water mark by one and returns it" if ok else
-                "NextFileId() is no longer 'maxFileId = maxFileId + 1': %s" % [expr_str(r) for r in rets])
+                "NextFileId() does not return `maxFileId = maxFileId + 1`: %s" % [expr_str(r) for r in rets])
+        # the id handed out is never the value Append() reads as "no id assigned"
+        lb = min([v for v in const_writes if v is not None] or [0])
+        for st in (f.body.get("ch") or []):
+            if st is not None and st["k"] == "If":
+                c = strip(st["ch"][0])
+                if c is not None and c["k"] == "Binary" and c.get("op") == "<" and norm(c["ch"][0]) == "maxFileId" and "val" in (strip(c["ch"][1]) or {}):
+                    C = strip(c["ch"][1])["val"]
+                    ks = [strip(y["ch"][1]).get("val") for y in walk(st["ch"][1]) if y["k"] == "Assign" and norm(y["ch"][0]) == "maxFileId"
+                          and strip(y["ch"][1]) is not None]
+                    if ks and all(k is not None for k in ks) and (len(st["ch"]) < 3 or st["ch"][2] is None):
+                        lb = max(lb, min(C, min(ks)))
+        lb_ret = lb + 1 if ok else None
+        app = prog.one("InstMgr::Append")
+        sentinels = []
+        if app is not None:
+            for x in app.walk():
+                if x["k"] == "If":
+                    c = strip(x["ch"][0])
+                    if c is not None and c["k"] == "Binary" and c.get("op") == "==" and is_id_getter(strip(c["ch"][0])) and "val" in (strip(c["ch"][1]) or {}) and \
+                            any(is_id_setter(y) for y in walk(x["ch"][1])):
+                        sentinels.append(strip(c["ch"][1])["val"])
+        if not sentinels:
+            res.broke("R3: the `no id assigned` test of InstMgr::Append was not found")
+        else:
+            okk = lb_ret is not None and all(lb_ret > s_ for s_ in sentinels)
+            res.add("R3.next_is_not_the_unset_value", "R3|include/clstepcore/instmgr.h|InstMgr::NextFileId|>unset", f.where(), okk,
+                    "ids handed out are >= %s, above the value %s that Append() reads as `no id assigned`" % (lb_ret, sentinels) if okk else
+                    "maxFileId can be %s (its smallest constant writer), so NextFileId() can hand out %s, the value InstMgr::Append() reads as `no id "
+                    "assigned`: an instance that got it is given a second id and a second node when it is appended again" % (lb, lb_ret))
 
 
 GETTERS = ("SDAI_Application_instance::StepFileId", "SDAI_Application_instance::GetFileId", "MgrNode::GetFileId")
